@@ -47,7 +47,11 @@ REQUIRED_TAGS = ['class=curve', 'class=surface', 'class=volume', 'rational', 'no
                  'above=bool', 'above=seq', 'above=mixed-seq', 'tensor=False', 'scalar-form', 'order=0', 'order>degree',
                  'path=generic', 'path=generic-first-rational', 'path=closed-curve', 'path=closed-surface', 'path=refused',
                  'left@interior-knot', 'periodic-dir', 'kind=dspline', 'dspline-periodic', 'dspline-all', 'kind=tangent',
-                 'kind=snormal', 'kind=binormal', 'kind=cnormal', 'outside']
+                 'kind=snormal', 'kind=binormal', 'kind=cnormal', 'outside',
+                 'kind=history', 'history:dspline-after-reparam', 'history:dspline-after-reverse', 'history:dspline-after-swap',
+                 'history:dspline-after-insert', 'history:dspline-after-raise', 'history:dspline-after-clone',
+                 'history:deriv-after-reparam', 'history:eval-after-reverse', 'history:tangent-after-reparam',
+                 'history:swap-same-shape', 'history:two-ops']
 ASSUMPTIONS = ['parameters of closed-form (rational, total order 2-3) calls are inside the domain: outside it the code divides by a zero weight (NaN), which the exact model cannot mirror',
                'the left limit at the start of a non-periodic direction is not requested (C01 covers that convention)',
                'Curve.binormal: accelerations are exactly zero or far from numpy.allclose\'s 1e-8 threshold']
@@ -262,6 +266,111 @@ def generate(rng, tier):
             if pd == 1:
                 specs.append(dict(base, kind='binormal', tensor=True))
                 specs.append(dict(base, kind='cnormal', tensor=True))
+    specs.extend(_history_specs(rng, tier))
+    return specs
+
+
+# ---------------------------------------------------------------------------------------------
+# histories: query, in-place operations, the same query again (hidden per-object state)
+
+def _same_shape_basis(rng, b):
+    """A basis with the order / multiplicity pattern of `b` but different (non-uniform) knot values."""
+    ks = b['knots']
+    dist = sorted(set(ks))
+    new = gen.increasing(rng, len(dist), start=rng.choice([0.0, -1.0, 2.0]), uniform=False)
+    m = dict(zip(dist, new))
+    return {'order': b['order'], 'knots': [m[k] for k in ks], 'periodic': b['periodic']}
+
+
+def _hist_obj(rng, pardim, periodic_ok, rational, same_shape=False):
+    for _ in range(50):
+        o = gen.rand_object(rng, pardim=pardim, rational=rational, pmax=4 if pardim < 3 else 3, pmin=2,
+                            max_interior=2, periodic_prob=0.3 if periodic_ok else 0.0, max_mult=1)
+        if any(b['periodic'] >= 0 and gen.basis_info(b)['n'] < 2 for b in o['bases']):
+            continue
+        if same_shape and pardim == 2:
+            b1 = o['bases'][0]
+            o['bases'][1] = _same_shape_basis(rng, b1)
+            n = gen.basis_info(b1)['n']
+            ncomp = len(np.array(o['cps']).reshape(-1, np.array(o['cps']).shape[-1])[0])
+            o['cps'] = gen.rand_cps(rng, [n, n], ncomp, o['rational'])
+        return o
+    raise AssertionError('no history object')
+
+
+def _hist_ops(rng, o, first):
+    """One operation (list form) valid on the ORIGINAL bases; `first` picks the kind."""
+    pd = len(o['bases'])
+    d = rng.randrange(pd)
+    if first == 'reparam':
+        s0 = rng.choice([0.0, -1.0, 2.0, 0.5])
+        info = gen.basis_info(o['bases'][d])
+        length = (info['end'] - info['start']) * rng.choice([2.0, 0.5, 4.0, 3.0, 0.25])   # never the old length
+        return ['reparam', d, s0, s0 + length]
+    if first == 'reverse':
+        return ['reverse', d]
+    if first == 'swap':
+        return ['swap', 0, 1] if pd < 3 else ['swap'] + rng.sample(range(3), 2)
+    if first == 'insert':
+        info = gen.basis_info(o['bases'][d])
+        ks = [x for x in gen.distinct_knots(o['bases'][d]) if info['start'] <= x <= info['end']]
+        i = rng.randrange(len(ks) - 1)
+        return ['insert', d, ks[i] + (ks[i + 1] - ks[i]) * rng.choice([0.5, 0.25, 0.75])]
+    if first == 'raise':
+        am = [0] * pd
+        am[d] = 1
+        return ['raise', am if pd > 1 else [1]]
+    if first == 'translate':
+        dim = np.array(o['cps']).shape[-1] - (1 if o['rational'] else 0)
+        return ['translate', [gen.dyadic(rng, -2, 2) for _ in range(dim)]]
+    if first == 'scale':
+        return ['scale', [rng.choice([2.0, 0.5, 4.0])]]
+    if first == 'clone':
+        return ['clone']
+    raise AssertionError(first)
+
+
+def _history_specs(rng, tier):
+    specs = []
+    reps = 2 if tier == 'quick' else 14
+    kinds = ['reparam', 'reverse', 'swap', 'insert', 'raise', 'translate', 'scale', 'clone']
+    k = 0
+    for rep in range(reps):
+        for first in kinds:
+            for qk in ['dspline', 'deriv', 'eval', 'tangent']:
+                k += 1
+                pd = [1, 2, 2, 1, 2, 3][k % 6] if qk != 'dspline' else [1, 2, 2, 2][k % 4]
+                if first == 'swap' and pd == 1:
+                    pd = 2
+                rational = (qk != 'dspline') and k % 3 == 0
+                same = first == 'swap' and pd == 2 and k % 2 == 0
+                periodic_ok = first not in ('insert', 'raise') and not same
+                o = _hist_obj(rng, pd, periodic_ok, rational, same_shape=same)
+                ops = [_hist_ops(rng, o, first)]
+                if k % 3 == 1 and first not in ('insert', 'raise'):
+                    ops.append(_hist_ops(rng, o, rng.choice(['reparam', 'reverse', 'clone', 'translate'])))
+                elif k % 3 == 2 and first in ('insert', 'raise'):
+                    ops.append(_hist_ops(rng, o, rng.choice(['reparam', 'reverse', 'clone'])))
+                left = rng.random() < 0.4
+                fr = [0.25, 0.5, 0.75, 1.0, 0.125, 0.875] + ([] if left else [0.0])
+                n = {1: 4, 2: 3, 3: 2}[pd]
+                fracs = [rng.sample(fr, n) for _ in range(pd)]
+                if qk == 'dspline':
+                    # differentiate the direction the first operation touches
+                    qd = ops[0][1] if ops[0][0] in ('reparam', 'reverse', 'insert') else rng.randrange(pd)
+                    q = {'q': 'dspline', 'dir': qd, 'fracs': fracs}
+                elif qk == 'deriv':
+                    tot = 1 if rational or pd == 3 else rng.choice([1, 1, 2])
+                    idx = [0] * pd
+                    for _ in range(tot):
+                        idx[rng.randrange(pd)] += 1
+                    q = {'q': 'deriv', 'fracs': fracs, 'd': [rng.choice(['tup', 'lst']), idx],
+                         'above': ['bool', not left], 'tensor': True}
+                elif qk == 'eval':
+                    q = {'q': 'eval', 'fracs': fracs, 'tensor': True}
+                else:
+                    q = {'q': 'tangent', 'fracs': fracs, 'dir': rng.randrange(pd), 'above': ['bool', not left], 'tensor': True}
+                specs.append({'kind': 'history', 'obj': o, 'ops': ops, 'query': q, 'same_shape': bool(same)})
     return specs
 
 
@@ -273,6 +382,8 @@ def model_line(s):
     eo = gen.enc_object(s['obj'])
     if k == 'deriv':
         return line('c03_deriv', eo, gen.TOL, s['params'], _enc_d(s['d']), _enc_above(s['above']), s['tensor'])
+    if k == 'history':
+        return line('c03_history', eo, gen.TOL, [_enc_op(op) for op in s['ops']], _enc_query(s['query']))
     if k == 'dspline':
         return line('c03_dspline', eo, gen.TOL, s['dir'])
     if k == 'tangent':
@@ -284,6 +395,76 @@ def model_line(s):
     if k == 'cnormal':
         return line('c03_cnormal', eo, gen.TOL, s['params'][0], _enc_above(s['above']))
     raise AssertionError(k)
+
+
+def _enc_op(op):
+    return [Word(op[0])] + list(op[1:])
+
+
+def _enc_query(q):
+    k = q['q']
+    if k == 'dspline':
+        return [Word('dspline'), q['dir']]
+    if k == 'deriv':
+        return [Word('deriv'), q['fracs'], _enc_d(q['d']), _enc_above(q['above']), q['tensor']]
+    if k == 'tangent':
+        return [Word('tangent'), q['fracs'], q['dir'], _enc_above(q['above']), q['tensor']]
+    return [Word('eval'), q['fracs'], q['tensor']]
+
+
+def _apply_op(obj, op):
+    k = op[0]
+    if k == 'reparam':
+        obj.reparam((op[2], op[3]), direction=op[1])
+    elif k == 'reverse':
+        obj.reverse(op[1])
+    elif k == 'swap':
+        if obj.pardim > 1:
+            obj.swap(op[1], op[2])
+        else:
+            obj.swap()
+    elif k == 'insert':
+        obj.insert_knot(op[2], op[1])
+    elif k == 'raise':
+        obj.raise_order(*op[1])
+    elif k == 'translate':
+        obj.translate(list(op[1]))
+    elif k == 'scale':
+        obj.scale(*op[1])
+    elif k == 'clone':
+        obj = obj.clone()
+    else:
+        raise AssertionError(k)
+    return obj
+
+
+def _frac_params(obj, fracs):
+    return [[float(obj.start(k)) + f * (float(obj.end(k)) - float(obj.start(k))) for f in fs] for k, fs in enumerate(fracs)]
+
+
+def _run_query(obj, q):
+    k = q['q']
+    with np.errstate(all='ignore'):
+        if k == 'dspline':
+            return gen.obj_observables(obj.get_derivative_spline(q['dir']))
+        ps = _frac_params(obj, q['fracs'])
+        if k == 'deriv':
+            return _flat(obj.derivative(*ps, d=_py_d(q['d']), above=bool(q['above'][1]), tensor=q['tensor']))
+        if k == 'eval':
+            return _flat(obj.evaluate(*ps))
+        r = obj.tangent(*ps, direction=q['dir'], above=bool(q['above'][1]), tensor=q['tensor'])
+        return [_flat(x) for x in r] if isinstance(r, tuple) else [_flat(r)]
+
+
+def _run_history(sp, s):
+    """[query before, 'ok', query after on the same object, query after on a clone]."""
+    obj = gen.mk_object(sp, s['obj'])
+    before = _run_query(obj, s['query'])
+    for op in s['ops']:
+        obj = _apply_op(obj, op)
+    after = _run_query(obj, s['query'])
+    after_clone = _run_query(obj.clone(), s['query'])
+    return [before, Word('ok'), after, after_clone], obj
 
 
 def _flat(a):
@@ -326,6 +507,8 @@ def _call_kind(sp, s):
 
 def run_impl(sp, s):
     k = s['kind']
+    if k == 'history':
+        return _run_history(sp, s)[0]
     if k == 'deriv':
         with np.errstate(all='ignore'):
             return _flat(_call_deriv(sp, s))
@@ -372,10 +555,34 @@ def _cmp_unit(iv, vec, path):
     return None
 
 
+def _cmp_query(q, iv, mv, path):
+    if isinstance(mv, str) and mv.startswith('err:'):
+        return diff(iv, mv, RTOL, ATOL, path=path)
+    k = q['q']
+    if k == 'dspline':
+        return diff(iv, mv, RTOL, ATOL, path=path)
+    if k in ('deriv', 'eval'):
+        if len(iv) != len(mv[1]):
+            return '%s: impl has %d numbers, model %d' % (path, len(iv), len(mv[1]))
+        return diff(iv, mv[1], RTOL, ATOL, path=path)
+    if len(iv) != len(mv):
+        return '%s: impl returned %d tangent fields, model %d' % (path, len(iv), len(mv))
+    for j, (a, b) in enumerate(zip(iv, mv)):
+        d = _cmp_unit(a, b, '%s[%d]' % (path, j))
+        if d:
+            return d
+    return None
+
+
 def compare(s, iv, mv):
     k = s['kind']
     if isinstance(iv, Err) or (isinstance(mv, str) and mv.startswith('err:')):
         return diff(iv, mv, RTOL, ATOL)
+    if k == 'history':
+        if str(mv[1]) != 'ok':
+            return '$: model operation raised %s, implementation did not' % mv[1]
+        return (_cmp_query(s['query'], iv[0], mv[0], '$.before') or _cmp_query(s['query'], iv[2], mv[2], '$.after')
+                or _cmp_query(s['query'], iv[3], mv[2], '$.after-clone'))
     if k == 'deriv':
         flat = mv[1]
         if len(iv) != len(flat):
@@ -638,8 +845,84 @@ def _oracle_vec(sp, s):
     return []
 
 
+def _oracle_query(obj, q, tag):
+    """The query on `obj` against the exact derivatives of the object's CURRENT spec."""
+    o = gen.spec_of_object(obj)
+    pd = len(o['bases'])
+    fc = _fc(o)
+    dim = fc.shape[-1] - (1 if o['rational'] else 0)
+    ps = _frac_params(obj, q['fracs'])
+    pts = [list(p) for p in itertools.product(*ps)]
+    k = q['q']
+    try:
+        with np.errstate(all='ignore'):
+            if k == 'dspline':
+                if o['rational'] or o['bases'][q['dir']]['order'] < 2:
+                    return []
+                unit = [1 if j == q['dir'] else 0 for j in range(pd)]
+                ds = obj.get_derivative_spline(q['dir'])
+                got = np.asarray(ds.evaluate(*ps), dtype=float).reshape(-1)
+                der = np.asarray(obj.derivative(*ps, d=tuple(unit)), dtype=float).reshape(-1)
+                idx, rights, odim = unit, [True] * pd, fc.shape[-1]
+            elif k == 'deriv':
+                idx = _meaning(q['d'], pd)
+                rights = [bool(q['above'][1])] * pd
+                got = np.asarray(obj.derivative(*ps, d=_py_d(q['d']), above=bool(q['above'][1]), tensor=q['tensor']), dtype=float).reshape(-1)
+                der, odim = None, dim
+            elif k == 'eval':
+                idx, rights, odim, der = [0] * pd, [True] * pd, dim, None
+                got = np.asarray(obj.evaluate(*ps), dtype=float).reshape(-1)
+            else:
+                idx = [1 if j == q['dir'] else 0 for j in range(pd)]
+                rights, odim, der = [bool(q['above'][1])] * pd, dim, None
+                got = np.asarray(obj.tangent(*ps, direction=q['dir'], above=bool(q['above'][1]), tensor=q['tensor']), dtype=float).reshape(-1)
+    except Exception as e:  # noqa: BLE001
+        if o['rational'] and k == 'deriv' and isinstance(e, RuntimeError) and sum(idx) >= 2:
+            return []
+        return ['%s: %s raised %s: %s' % (tag, k, type(e).__name__, str(e)[:80])]
+    if got.size != len(pts) * odim:
+        return ['%s: %s returned %d numbers for %d points' % (tag, k, got.size, len(pts))]
+    for i, pt in enumerate(pts):
+        want, scale = exact_derivative(o, fc, pt, idx, rights)
+        if want is None:
+            continue
+        want = want[:odim]
+        g = got[i * odim:(i + 1) * odim]
+        if k == 'tangent':
+            u = _unit(want)
+            if u is None:
+                continue
+            if not np.all(np.isfinite(g)) or any(abs(g[c] - u[c]) > 1e-7 for c in range(odim)):
+                return ['%s: tangent(direction=%d) at %r is %r, the normalised derivative of the current object is %r' % (tag, q['dir'], pt, [float(x) for x in g], u)]
+            continue
+        if not np.all(np.isfinite(g)) or not _close(g, want, scale):
+            what = 'get_derivative_spline(%d).evaluate' % q['dir'] if k == 'dspline' else k
+            return ['%s: %s at %r is %r, the current object gives %r' % (tag, what, pt, [float(x) for x in g], [float(x) for x in want])]
+        if der is not None and not _close(g, der[i * odim:(i + 1) * odim], scale):
+            return ['%s: get_derivative_spline(%d).evaluate%r differs from derivative(d=%r)' % (tag, q['dir'], tuple(pt), tuple(idx))]
+    return []
+
+
+def _oracle_history(sp, s):
+    obj = gen.mk_object(sp, s['obj'])
+    q = s['query']
+    fails = _oracle_query(obj, q, 'before')
+    try:
+        with np.errstate(all='ignore'):
+            _run_query(obj, q)          # the first query may leave state behind on the object
+            for op in s['ops']:
+                obj = _apply_op(obj, op)
+    except Exception as e:  # noqa: BLE001
+        return fails + ['history %r raised %s: %s' % (s['ops'], type(e).__name__, str(e)[:80])]
+    fails += _oracle_query(obj, q, 'after %r' % (s['ops'],))
+    fails += _oracle_query(obj.clone(), q, 'clone after %r' % (s['ops'],))
+    return fails[:3]
+
+
 def oracle(sp, s):
     k = s['kind']
+    if k == 'history':
+        return _oracle_history(sp, s)
     if k == 'deriv':
         return _oracle_deriv(sp, s)
     if k == 'dspline':
@@ -706,6 +989,8 @@ def classify(s, res=None):
     k = s['kind']
     o = s['obj']
     pd = len(o['bases'])
+    if k == 'history':
+        return None
     if k == 'deriv':
         idx = _meaning(s['d'], pd)
         if not o['rational'] or idx is None:
@@ -742,6 +1027,17 @@ def tags(s, res):
     k = s['kind']
     o = s['obj']
     pd = len(o['bases'])
+    if k == 'history':
+        out = ['kind=history', 'class=' + {1: 'curve', 2: 'surface', 3: 'volume'}[pd], 'rational' if o['rational'] else 'nonrational']
+        for op in s['ops']:
+            out.append('history:%s-after-%s' % (s['query']['q'], op[0]))
+        if len(s['ops']) > 1:
+            out.append('history:two-ops')
+        if s.get('same_shape'):
+            out.append('history:swap-same-shape')
+        if any(b['periodic'] >= 0 for b in o['bases']):
+            out.append('periodic-dir')
+        return out
     out = ['kind=' + k, 'class=' + {1: 'curve', 2: 'surface', 3: 'volume'}[pd], 'rational' if o['rational'] else 'nonrational']
     if any(b['periodic'] >= 0 for b in o['bases']):
         out.append('periodic-dir')
@@ -789,6 +1085,8 @@ def tags(s, res):
 
 
 def nontrivial(s, res):
+    if s['kind'] == 'history':
+        return True
     if s['kind'] == 'dspline':
         return s['dir'] < len(s['obj']['bases'])
     return _in_domain(s['obj'], s['params'])
